@@ -26,7 +26,7 @@ inductive Verdict
 /-- the kernel after replacing the state of exactly process `pid` and noting one change -/
 def replaced (k : Kernel) (pid : Nat) (st' : PState) (e : Eff) : Kernel :=
   { procs := fun q => if q = pid then some st' else k.procs q
-    self := k.self, ncpu := k.ncpu, nrOpen := k.nrOpen, capResource := k.capResource
+    self := k.self, ncpu := k.ncpu, statCpus := k.statCpus, nrOpen := k.nrOpen, capResource := k.capResource
     log := k.log ++ [e] }
 
 /-- CPUs that exist and that the process is allowed to run on, ascending -/
